@@ -130,3 +130,60 @@ Theorem C03_source_tie_deepest :
   gen_validate_deepest_is_max = true /\ gen_snap_deepest_is_max = true.
 Proof. split; reflexivity. Qed.
 Print Assumptions C03_source_tie_deepest.
+
+From Texel Require Import Prelude.GoAssoc Index.MachineInt Index.GoTop Index.ProofsRound Index.ProofsGenDescent Index.ProofsGenIndexTop.
+From Texel.Gen Require Import IndexTopGen.
+
+(** ** tie G2, whole body: [FromTileMatrixSet] of pointindex.go REGENERATED from source on this run (gen/IndexTopGen.v,
+    translator/indextop.go): it builds the empty index of the grid the model's constructor [tmsGrid] (Index/ProofsRound.v)
+    builds from the same numbers.
+
+    REGENERATED: every statement: the deepest level uint(deepestTMID) + uint(Log2(float64(TileWidth of matrix 0))) +
+    uint(Log2(float64(16))) in uint arithmetic ([tms_level]; [tms_level_plain]: = id + log2 width + 4 when the two float
+    computations give log2 width and 4), the bounding box of matrix 0 converted to integers ([bbox_extent]: the
+    regenerated FromGeomPoint and X() / Y()), deepestSize = Pow2(level), deepestRes = XSpan / int64(deepestSize) with the
+    truncating machine division, the three makes, the centroid of the root by the regenerated
+    getQuadrantExtentAndCentroid (C03_source_tie), the error of MatrixBoundingBox handed on through fmt.Errorf.
+    [gen_empty_indexT g] is the record: root quadrant (key 0, the extent, [quadCentroid g 0 0 0]), level, size 2^level,
+    resolution of g, no quadrants, no hits; it refines the empty hot set ([empty_indexT_rel]).
+    Hypotheses: level <= 32 (so that Pow2 and the Morton keys fit), x span non-negative and within int64.
+    MODELLED (trusted mappings, listed at the top of gen/IndexTopGen.v): float64 and math.Log2 abstract ([floatops]);
+    tms20.TileMatrixSet = the view [gotms] (TileWidth per matrix, result of MatrixBoundingBox per id: that method is
+    regenerated over Q in TmsAddrGen.v, C15); fmt.Errorf = ErrOther; the returned pointer = option. *)
+Theorem C03_source_tie_from_tile_matrix_set :
+  forall (fo : floatops) (t : gotms fo gen_OutsideGridError) (tmid : Z),
+  (forall bl tr er, gotms_MatrixBoundingBox t 0 = (bl, tr, Some er) ->
+     gen_FromTileMatrixSet fo t tmid = Ok (None, Some ErrOther)) /\
+  (forall bl tr (d : nat), gotms_MatrixBoundingBox t 0 = (bl, tr, None) ->
+     tms_level fo t tmid = N.of_nat d -> (d <= 32)%nat ->
+     let e := bbox_extent fo bl tr in
+     eminx e <= emaxx e -> is_i64 (emaxx e - eminx e) ->
+     gen_FromTileMatrixSet fo t tmid = Ok (Some (gen_empty_indexT (tmsGrid e d)), None) /\
+     ixT_rel (tmsGrid e d) (hotLevels (tmsGrid e d) []) (gen_empty_indexT (tmsGrid e d))).
+Proof.
+  intros fo t tmid. destruct (gen_FromTileMatrixSet_spec fo t tmid) as [H1 H2]. split; [exact H1 |].
+  intros bl tr d Hb Hl Hd e He Hs. split; [exact (H2 bl tr d Hb Hl Hd He Hs) | apply empty_indexT_rel].
+Qed.
+Print Assumptions C03_source_tie_from_tile_matrix_set.
+
+Theorem C03_source_tie_tms_level :
+  forall (fo : floatops) (t : gotms fo gen_OutsideGridError) (tmid : Z) (lw : N),
+  f_to_uint64 fo (f_log2 fo (f_of_uint64 fo (tms_root_width t))) = lw -> f_to_uint64 fo (f_log2 fo (f_const fo 16)) = 4%N ->
+  0 <= tmid < 2 ^ 32 -> (lw < 2 ^ 32)%N ->
+  tms_level fo t tmid = (Z.to_N tmid + lw + 4)%N.
+Proof. intros fo t. exact (tms_level_plain fo t). Qed.
+Print Assumptions C03_source_tie_tms_level.
+
+(** the regenerated code runs (float operations: exact decimal fixed point [fo_fixed]): NetherlandsRDNewQuad, tile width
+    256, bounding box (-285401.92, 22598.08) .. (595401.92, 903401.92), deepest tile matrix 14: level 14 + 8 + 4 = 26 and
+    the index of [gRD] above (resolution 0.013125); an error of MatrixBoundingBox is handed on *)
+Example C03_source_tie_from_tile_matrix_set_example :
+  let bl : FPt fo_fixed := (-2854019200000000, 225980800000000) in
+  let tr : FPt fo_fixed := (5954019200000000, 9034019200000000) in
+  let t : gotms fo_fixed gen_OutsideGridError := mk_gotms fo_fixed _ [(0, mk_gotm 256)] (fun _ => (bl, tr, None)) in
+  let tbad : gotms fo_fixed gen_OutsideGridError := mk_gotms fo_fixed _ [(0, mk_gotm 256)] (fun _ => (bl, tr, Some ErrOther)) in
+  tms_level fo_fixed t 14 = 26%N /\
+  tmsGrid (bbox_extent fo_fixed bl tr) 26 = gRD /\
+  gen_FromTileMatrixSet fo_fixed t 14 = Ok (Some (gen_empty_indexT gRD), None) /\
+  gen_FromTileMatrixSet fo_fixed tbad 14 = Ok (None, Some ErrOther).
+Proof. vm_compute. repeat split; reflexivity. Qed.
